@@ -46,3 +46,39 @@ mod seal {
 }
 #[cfg(feature = "encryption")]
 pub use seal::{seal, unseal};
+
+mod failpoints {
+    use crate::errors::{Error, Result};
+    use std::collections::HashMap;
+    use std::sync::Mutex;
+
+    static POINTS: Mutex<Option<HashMap<String, u8>>> = Mutex::new(None);
+
+    /// Arm the named failpoint for its next passage: 1 = return an error there, 2 = stop the
+    /// calling code there (panic, so nothing after the point runs), 0 = disarm.
+    pub fn set_failpoint(name: &str, action: u8) {
+        let mut g = POINTS.lock().unwrap();
+        let m = g.get_or_insert_with(HashMap::new);
+        if action == 0 {
+            m.remove(name);
+        } else {
+            m.insert(name.to_string(), action);
+        }
+    }
+
+    /// A named point between two internal steps of a backend. Does nothing unless armed.
+    pub fn failpoint(name: &str) -> Result<()> {
+        let action = {
+            let mut g = POINTS.lock().unwrap();
+            g.as_mut().and_then(|m| m.remove(name))
+        };
+        match action {
+            Some(1) => Err(Error::Server(format!(
+                "injected failure at failpoint {name}"
+            ))),
+            Some(2) => panic!("injected stop at failpoint {name}"),
+            _ => Ok(()),
+        }
+    }
+}
+pub use failpoints::{failpoint, set_failpoint};
